@@ -1,2 +1,89 @@
--- stub: replaced by the model driver of this property
-def main : IO Unit := pure ()
+import SdcModel.Basic.Io
+import SdcModel.Tls
+open Sdc Sdc.Tls
+
+/-! model driver for C19.
+  `sites pT pS pA cM cS cA ssl` -> scheme/host of every site, accept flag, client/server TLS flags
+       (pT,pA,cA ∈ 0|1; pS,cS ∈ own|plain|tls; cM ∈ none|optional|enforced; ssl ∈ T|F|N = `is_ssl_connection`)
+  `crun mode ev…` (ev ∈ c1|c0|g<netloc>|s) -> final `is_ssl_connection` and TLS flags of the clients created
+  `verify server ca` -> verify mode -/
+
+def parseBool : String → Option Bool
+  | "1" => some true
+  | "0" => some false
+  | _ => none
+
+def parseServer : String → Option Server
+  | "own" => some .own
+  | "plain" => some .sharedPlain
+  | "tls" => some .sharedTls
+  | _ => none
+
+def parseMode : String → Option ConsMode
+  | "none" => some .none
+  | "optional" => some .optional
+  | "enforced" => some .enforced
+  | _ => none
+
+def parseSsl : String → Option (Option Bool)
+  | "T" => some (some true)
+  | "F" => some (some false)
+  | "N" => some none
+  | _ => none
+
+def showSsl : Option Bool → String
+  | some true => "T"
+  | some false => "F"
+  | none => "N"
+
+def showScheme : Scheme → String
+  | .http => "http"
+  | .https => "https"
+
+def showHost : Host → String
+  | .ip => "ip"
+  | .alt => "alt"
+
+def siteName : Site → String
+  | .xaddr => "xaddr" | .hostedEpr => "hostedEpr" | .wsdlLocation => "wsdlLocation"
+  | .subscriptionManager => "subscriptionManager" | .subscriptionEndManager => "subscriptionEndManager"
+  | .notifyTo => "notifyTo" | .endTo => "endTo"
+
+def showVerify : Verify → String
+  | .certNone => "CERT_NONE"
+  | .certOptional => "CERT_OPTIONAL"
+  | .certRequired => "CERT_REQUIRED"
+
+def b01 (b : Bool) : String := if b then "1" else "0"
+
+def parseEv (w : String) : Option CEv :=
+  if w == "c1" then some (.connect true)
+  else if w == "c0" then some (.connect false)
+  else if w == "s" then some .stop
+  else if w.startsWith "g" then (w.drop 1).toNat?.map .getClient
+  else none
+
+def stepLine (u : Unit) (line : String) : Unit × String :=
+  match Io.words line with
+  | ["sites", pT, pS, pA, cM, cS, cA, ssl] =>
+    match parseBool pT, parseServer pS, parseBool pA, parseMode cM, parseServer cS, parseBool cA, parseSsl ssl with
+    | some a, some b, some c, some d, some e, some f, some s =>
+      let cfg : Cfg := ⟨a, b, c, d, e, f⟩
+      let sites := " ".intercalate (Site.all.map fun st => s!"{siteName st}={showScheme (urlScheme cfg s st)}/{showHost (urlHost cfg st)}")
+      (u, s!"{sites} accept={b01 (eventSinkAccepted cfg s)} provClient={b01 (provClientTls cfg)} provServer={b01 (provServerTls cfg)} consServer={b01 (consServerTls cfg s)}")
+    | _, _, _, _, _, _, _ => (u, "bad-op")
+  | "crun" :: mode :: evs =>
+    match parseMode mode, evs.mapM parseEv with
+    | some m, some es =>
+      let r := crun (CState.init m) es
+      (u, s!"ssl={showSsl r.1.ssl} clients=[{" ".intercalate (r.2.map b01)}]")
+    | _, _ => (u, "bad-op")
+  | ["init", mode] => match parseMode mode with
+    | some m => (u, showSsl (initSsl m))
+    | none => (u, "bad-op")
+  | ["verify", server, ca] => match parseBool server, parseBool ca with
+    | some s, some c => (u, showVerify (verifyMode s c))
+    | _, _ => (u, "bad-op")
+  | _ => (u, "bad-op")
+
+def main : IO Unit := Io.lineLoop stepLine ()
